@@ -160,9 +160,11 @@ impl EarlyMsg {
                                "HTTP/1.1 403 Forbidden\r\nConnection: keep-alive\r\nContent-Length: 0\r\n\r\n", "HTTP/1.0 401 No\r\nConnection: Keep-Alive\r\nContent-Length: 0\r\n\r\n"][variant % 4].into(),
             _ => ["HTTP/1.1 403 Forbidden\r\nConnection: close\r\nX-A: b\r\n\r\n", "HTTP/1.0 403 Forbidden\r\nConnection: close\r\nX-A: b\r\n\r\n"][variant % 2].into(),
         };
+        // now and then the server ends its lines with a bare LF (outside the grammar, accepted by common parsers)
+        let text = if variant % 7 == 5 && kind != "refuseFieldsClose" { text.replace("\r\n", "\n") } else { text };
         let bytes = text.into_bytes();
-        let sl = bytes.windows(2).position(|w| w == b"\r\n").unwrap() + 2;
-        let first_field_end = if bytes.len() > sl + 2 { sl + bytes[sl..].windows(2).position(|w| w == b"\r\n").unwrap() + 2 } else { sl };
+        let sl = bytes.iter().position(|&c| c == b'\n').unwrap() + 1;
+        let first_field_end = if bytes.len() > sl + 2 { sl + bytes[sl..].iter().position(|&c| c == b'\n').unwrap() + 1 } else { sl };
         EarlyMsg { kind: kind.into(), bytes, sl, first_field_end }
     }
     pub fn is_refusal(&self) -> bool {
@@ -170,7 +172,7 @@ impl EarlyMsg {
     }
     /// a status line the grammar does not allow (no space after the status code) that parsers commonly accept
     pub fn lenient(&self) -> bool {
-        self.bytes.get(12) == Some(&b'\r')
+        self.bytes.get(12) == Some(&b'\r') || !self.bytes.windows(2).any(|w| w == b"\r\n")
     }
     /// the final-response configuration that a refusal message is
     pub fn fin(&self) -> FinCfg {
@@ -192,7 +194,7 @@ impl EarlyMsg {
         let n = match cls {
             "nothing" => 0,
             "inStatusLine" => 1 + v % (self.sl - 1),
-            "afterStatusLine" => self.sl + if !self.is_refusal() || self.first_field_end == self.sl { v % 2 } else { 0 },
+            "afterStatusLine" => (self.sl + if !self.is_refusal() || self.first_field_end == self.sl { v % 2 } else { 0 }).min(b.len() - 1),
             "bare100" | "bareOther" | "otherComplete" => b.len(),
             "otherInFields" => self.sl + 1 + v % (self.first_field_end - self.sl - 1),
             "otherFieldLine" => self.first_field_end + v % (b.len() - self.first_field_end),
@@ -277,6 +279,7 @@ impl Sim {
         let st = self.fb.name();
         self.calls += 1;
         let fb = std::mem::replace(&mut self.fb, FlowBox::Dead);
+        let mut body_left = false;
         let (ready, next): (Option<bool>, Option<Result<FlowBox, &'static str>>) = match fb {
             FlowBox::Prepare(f) => (Some(true), guarded(|| Ok(FlowBox::SendRequest(f.proceed())))),
             FlowBox::SendRequest(f) => {
@@ -318,6 +321,9 @@ impl Sim {
             }
             FlowBox::RecvBody(f) => {
                 let r = guarded(|| f.can_proceed());
+                // bytes of a delimited body that the caller has not read yet stay on the connection
+                let is_close = guarded(|| matches!(f.body_mode(), BodyMode::CloseDelimited)).unwrap_or(true);
+                body_left = !is_close && self.bpos + 17 < self.body.len();
                 (r, if r.is_none() { None } else {
                     guarded(|| match f.proceed() {
                         Some(RecvBodyResult::Redirect(x)) => Ok(FlowBox::Redirect(x)),
@@ -334,7 +340,10 @@ impl Sim {
         };
         match (ready, next) {
             (Some(r), Some(Ok(nb))) => {
-                ev_call(t, st, "proceed", json!({"ready": r, "res": nb.name()}));
+                ev_call(t, st, "proceed", json!({"ready": r, "res": nb.name(), "body_left": body_left}));
+                if body_left {
+                    t.class("proceed:body-left-on-the-connection");
+                }
                 if let FlowBox::RecvBody(f) = &nb {
                     // the body the server would now send, by what the flow says it expects
                     let tail = b"HTTP/1.1 200 OK\r\n";
@@ -507,7 +516,7 @@ impl Sim {
         if let FlowBox::RecvResponse(f) = &mut self.fb {
             let r = guarded(|| f.try_response(&input));
             let ready = guarded(|| f.can_proceed());
-            let mut e = json!({"kind":kind,"mlen":mlen,"w":input.len(),"lenient": refusal.as_ref().map(|r| r.lenient()).unwrap_or(false)});
+            let mut e = json!({"kind":kind,"mlen":mlen,"w":input.len(),"lenient": self.early.as_ref().map(|r| r.lenient()).unwrap_or(false)});
             // a late 100 offered together with the complete final head: the code may skip the 100 and hand out the
             // response in the same call (hlen = length of that head, 0 if the 100 was offered alone)
             let together = kind == "late100" && input.len() > mlen && fin_cfg.is_some();
@@ -604,6 +613,14 @@ impl Sim {
 
     /// read until the flow says it can proceed (or nothing moves any more)
     pub fn drain_body(&mut self, t: &mut Tracer) {
+        // the canonical caller: `while !can_proceed() { read }` — it trusts the readiness query
+        if (self.v.wrapping_mul(2654435761) >> 9) % 2 == 0 {
+            if let FlowBox::RecvBody(f) = &self.fb {
+                if guarded(|| f.can_proceed()).unwrap_or(false) {
+                    return;
+                }
+            }
+        }
         for _ in 0..200 {
             let before = self.bpos;
             self.op_read(t, true);
